@@ -228,7 +228,7 @@ func H_C14_charstats() { vfC14CharStats(2, 2, []uint8{'A', 'a', 'c', 'N', '-', '
 // H_C14_charstats_deep: as H_C14_charstats, deeper.
 // bounds: n<=3 rows, L<=2 columns, every content over {A,a,c,-,~}
 // outside: n>3, L>2
-// verif: tier=thorough
+//verif: tier=thorough
 func H_C14_charstats_deep() { vfC14CharStats(3, 2, []uint8{'A', 'a', 'c', '-', '~'}) }
 
 // H_C14_charstats_seq_site: CharStatsSeq and CharStatsSite are the case-folded counts of one row / one column; an index outside is an error, never a panic; same answer twice.
@@ -239,7 +239,7 @@ func H_C14_charstats_seq_site() { vfC14CharStatsSeqSite(2, 2) }
 // H_C14_charstats_seq_site_deep: as H_C14_charstats_seq_site, deeper.
 // bounds: n<=3 rows, L<=3 columns
 // outside: n>3, L>3
-// verif: tier=thorough
+//verif: tier=thorough
 func H_C14_charstats_seq_site_deep() { vfC14CharStatsSeqSite(3, 3) }
 
 // vfC14CheckProfile: p must hold, for every residue and every site, the number of rows with that residue at that site.
@@ -367,7 +367,7 @@ func vfC14CheckMajority(out []uint8, occur, total []int, orig [][]uint8, n, L, a
 // H_C14_maxchar_def: MaxCharStats and Consensus return a most frequent non-excluded character with its count, under every map iteration order.
 // bounds: (n<=3 rows, L=1 column) or (n<=2 rows, L=2 columns), residues printable ASCII (mixed case), both alphabets, the 4 combinations of ignoreGaps/ignoreNs
 // outside: larger shapes; columns whose residues are all excluded but of two kinds (gap and N): nothing is stated, nothing asserted
-// verif: maporder=1
+//verif: maporder=1
 func H_C14_maxchar_def() {
 	n, L := 0, 1
 	if nondetRange(0, 1) == 0 {
@@ -418,13 +418,13 @@ func vfC14MaxCharDet(nmax, lmax int) {
 // H_C14_maxchar_det: two evaluations of MaxCharStats on the same alignment agree (map iteration orders explored independently).
 // bounds: n<=3 rows, L=1 column, residues printable ASCII, both alphabets, 4 option combinations
 // outside: n>3, L>1
-// verif: maporder=1
+//verif: maporder=1
 func H_C14_maxchar_det() { vfC14MaxCharDet(3, 1) }
 
 // H_C14_consensus_det: two evaluations of Consensus on the same alignment give the same sequence.
 // bounds: n<=2 rows, L<=2 columns, residues printable ASCII, both alphabets, 4 option combinations
 // outside: n>2, L>2
-// verif: maporder=1
+//verif: maporder=1
 func H_C14_consensus_det() {
 	n := nondetRange(1, 2)
 	L := nondetRange(1, 2)
@@ -544,13 +544,13 @@ func vfC14Entropy(nmin, nmax, lmax int) {
 // H_C14_entropy: Entropy(site, removegaps) = -sum p ln p over the residues of the column (ln uninterpreted), same answer twice under independent map iteration orders.
 // bounds: n<=3 rows, L<=2 columns, residues printable ASCII without lower-case letters, all sites in [0,L), removegaps any; columns with at least one counted residue
 // outside: IEEE rounding (exact real arithmetic, order of summation irrelevant), lower-case residues (case folding of entropy not documented), columns made only of - . * (0/0)
-// verif: maporder=1
+//verif: maporder=1
 func H_C14_entropy() { vfC14Entropy(1, 3, 2) }
 
 // H_C14_entropy_deep: as H_C14_entropy with 4 rows.
 // bounds: n=4 rows, L<=2; columns with at least one counted residue
 // outside: n>4
-// verif: maporder=1 tier=thorough
+//verif: maporder=1 tier=thorough
 func H_C14_entropy_deep() { vfC14Entropy(4, 4, 2) }
 
 // ---------------------------------------------------------------------------------------
@@ -620,13 +620,12 @@ func vfC14Variable(nmax, lmax int) {
 // H_C14_variable_alleles: NbVariableSites and AvgAllelesPerSite equal their naive definitions; same answer twice.
 // bounds: n<=3 rows, L<=2 columns, residues printable ASCII except lower-case letters, '.', '*'
 // outside: n>3, L>2; lower-case residues and . * (treatment not documented uniformly); alignments whose every column is gap-only for AvgAllelesPerSite (0/0, caveat b); IEEE rounding
-// verif: merge=0
 func H_C14_variable_alleles() { vfC14Variable(3, 2) }
 
 // H_C14_variable_alleles_deep: as H_C14_variable_alleles, deeper.
 // bounds: n<=4 rows, L<=2 columns
 // outside: n>4
-// verif: merge=0 tier=thorough
+//verif: tier=thorough
 func H_C14_variable_alleles_deep() { vfC14Variable(4, 2) }
 
 func vfC14Informative(n, L int, alphabet int, alpha []uint8) {
@@ -667,7 +666,7 @@ func H_C14_informative() {
 // H_C14_informative_deep: as H_C14_informative, larger contents.
 // bounds: every content enumerated for: nucleotides n=6, L=1 over {A,C,G,N,-}; amino acids n=5, L=1 over {A,C,N,X,-}; nucleotides n=4, L=2 over {A,C,-}
 // outside: other shapes and residues
-// verif: tier=thorough
+//verif: tier=thorough
 func H_C14_informative_deep() {
 	switch nondetRange(0, 2) {
 	case 0:
@@ -755,5 +754,5 @@ func H_C14_pssm() { vfC14Pssm(2, 2, 2) }
 // H_C14_pssm_deep: as H_C14_pssm with up to 2x2 and 3x1 residues.
 // bounds: n<=3 rows, L<=2 columns, at most 4 residues in all
 // outside: larger alignments
-// verif: tier=thorough
+//verif: tier=thorough
 func H_C14_pssm_deep() { vfC14Pssm(3, 2, 4) }
